@@ -449,6 +449,12 @@ func verif_HandleTCPWorkConnection(pxy *BaseProxy, workConn net.Conn, m *msg.Sta
 	src := net.JoinHostPort(m.SrcAddr, strconv.Itoa(int(m.SrcPort)))
 	verif.ResetEvents()
 	pxy.HandleTCPWorkConnection(workConn, m, encKey)
+	// a compression codec taken from the shared pool is handed back only after
+	// the joined streams have ended; a stream given to a plugin outlives this
+	// call, so its codec is never handed back here (the next work connection
+	// would be given the codec still in use)
+	const evRecycle = "WithCompressionFromPool$fn$"
+	verif.Ensures(!verif.Called(evRecycle) || (verif.Called(evJoin) && verif.CalledBefore(evJoin, evRecycle)), "pooled_codec_recycled_only_after_the_streams_ended")
 	if verif.Called(evJoin) {
 		verif.Ensures(!plugged, "joined_only_without_plugin")
 		verif.Ensures(verif.Called(evEnc) == enc && verif.Called(evComp) == comp, "layers_iff_configured")
